@@ -313,6 +313,11 @@ def gen_history(seed, wl, cfg=None):
             if cfg.get('invalid', True) and rng.random() < 0.04:
                 inp = rng.choice(INVALID_INPUTS)
             opts, param, optsig = gen_options(rng, en_opts, inp, params)
+            if (inp['family'] in NONCOV_FAMILIES + BIG_OK and ['-d'] not in opts
+                    and rng.random() < 0.4):
+                # the display mode matters where there is something to display
+                opts = opts + [['-d']]
+                optsig += '+display'
         history.append((inp, opts, param, optsig))
         call = gen_call(rng, en_calls, inp, opts, param, pool, True,
                         optgen=lambda o: gen_options(rng, en_opts, o, params))
